@@ -1,0 +1,29 @@
+//go:build verif
+
+package peering
+
+import (
+	"net"
+
+	"github.com/mycoria/mycoria/m"
+)
+
+// VerifSetupLink runs the real link setup (handshake, link encryption, label
+// assignment, registration, reader and writer workers) over the given
+// connection, as a protocol implementation does after dialing (outgoing) or
+// accepting (incoming).
+// Verification hook: only compiled with the "verif" build tag.
+func (p *Peering) VerifSetupLink(conn net.Conn, peeringURL *m.PeeringURL, outgoing bool) (Link, error) {
+	link := newLinkBase(conn, peeringURL, outgoing, p)
+	l, err := link.handleSetup(p.mgr)
+	if err != nil {
+		return nil, err
+	}
+	return l, nil
+}
+
+// VerifWorkerCnt returns the number of running workers of the peering manager.
+// Verification hook: only compiled with the "verif" build tag.
+func (p *Peering) VerifWorkerCnt() int {
+	return int(p.mgr.VerifWorkerCnt())
+}
